@@ -136,11 +136,26 @@ Section Sha.
 
   Definition is200 (x : resp) : bool := match x with R200 => true | _ => false end.
 
-  (* responses of the n concurrent requests reqs (thread t sends nth t reqs) after schedule sched *)
-  Definition responses (old : bool) (p : pending) (reqs : list request) (sched : list act) : list resp :=
-    let tr := trace (exec true sched) in
-    map (fun tr_r => respond ((if old then success_old else success) tr (fst tr_r)) p (snd tr_r))
-        (combine (seq 0 (length reqs)) reqs).
-  Definition tokens_issued (old : bool) (p : pending) (reqs : list request) (sched : list act) : nat :=
-    length (filter is200 (responses old p reqs sched)).
+  (* responses of the n concurrent requests reqs (thread t sends nth t reqs) after schedule sched;
+     old = success criterion before the repair; present = the code is in the cache at the start *)
+  Definition threads_of (reqs : list request) : list (nat * request) := combine (seq 0 (length reqs)) reqs.
+  Definition responses (old present : bool) (p : pending) (reqs : list request) (sched : list act) : list resp :=
+    let tr := trace (exec present sched) in
+    map (fun x => respond ((if old then success_old else success) tr (fst x)) p (snd x)) (threads_of reqs).
+  Definition responses_refresh (old present : bool) (owner : str) (reqs : list request) (sched : list act) : list resp :=
+    let tr := trace (exec present sched) in
+    map (fun x => respond_refresh ((if old then success_old else success) tr (fst x)) owner (snd x)) (threads_of reqs).
+  Definition count200 (l : list resp) : nat := length (filter is200 l).
+  Definition tokens_issued (old present : bool) (p : pending) (reqs : list request) (sched : list act) : nat :=
+    count200 (responses old present p reqs sched).
 End Sha.
+
+(* ---- observables compared with the real code by the tie *)
+Definition resp_code (x : resp) : N := match x with R200 => 200 | R400 => 400 | R401 => 401 end.
+Definition pkce_code (x : pkce) : N := match x with PkceOk => 0 | PkceMethod => 1 | PkceFailed => 2 end.
+Definition sha_table (tbl : list (str * list N)) (v : str) : list N :=
+  match find (fun e => str_eqb (fst e) v) tbl with Some e => snd e | None => [] end.
+(* which threads reached the yield point (their Find saw the entry) *)
+Definition founds (present : bool) (n : nat) (sched : list act) : list bool :=
+  map (thread_found (trace (exec present sched))) (seq 0 n).
+Definition remaining (present : bool) (sched : list act) : bool := fst (exec present sched).
